@@ -853,7 +853,9 @@ func jsonTokens(b []byte) []jtok {
 	return out
 }
 
-var c17NumberSpellings = []string{"1e400", "-0", "1.0e-5", "0x1", "NaN", "Infinity", "01", "1.", ".5", "-", "1e", "123456789012345678901234567890123456789012345678901234567890", "1e-400", "9007199254740993", "-1e999999999", "1e999999", "1e-9999", "3.e119020815", ".5e-77777777", "1E+2", "0.1e1"}
+var c17NumberSpellings = []string{"1e400", "-0", "1.0e-5", "0x1", "NaN", "Infinity", "01", "1.", ".5", "-", "1e", "123456789012345678901234567890123456789012345678901234567890", "1e-400", "9007199254740993", "-1e999999999", "1e999999", "1e-9999", "3.e119020815", ".5e-77777777", "1E+2", "0.1e1",
+	// exponents no number type holds: the tokenizer accepts them, the number parser does not
+	"1e2147483647", "25e2147483650", "7E+99999999999999999999", "1e-2147483649", "1e4294967296", "1e2147483646"}
 var c17Replacements = []string{"12", `"x"`, "true", "false", "null", "{}", "[]", `{"a":1}`, `[null]`, `"\ud800"`, `"\u0000"`, `"é"`, `{"value":1,"type":"string"}`, `{"type":"string","value":"x"}`, `{"type":["list","string"],"value":[1]}`, `{"type":"string"}`, `{"value":1}`, `{"type":1,"value":1}`}
 
 func c17TokenDamage(c *Ctx, data []byte) []byte {
@@ -1666,7 +1668,11 @@ func capExponents(b []byte) ([]byte, bool) {
 		if neg {
 			max = 4
 		}
-		if k-j > max {
+		if k-j >= 10 {
+			// (ten digits and more: beyond what math/big's number parser accepts at all - refused, or turned into
+			// an infinity or a zero, in microseconds; nothing is expanded)
+			out = append(out, b[j:k]...)
+		} else if k-j > max {
 			out = append(out, b[j:j+max]...)
 			changed = true
 		} else {
@@ -1698,7 +1704,7 @@ func hasBigExponent(b []byte) bool {
 		for k < len(b) && b[k] >= '0' && b[k] <= '9' {
 			k++
 		}
-		if k-j >= need {
+		if k-j >= need && k-j < 10 { // (ten digits and more cost nothing: see capExponents)
 			return true
 		}
 	}
